@@ -322,6 +322,57 @@ fn check(c: &CliCase) -> CaseReport {
             }
         }
     }
+    // --describe: the default-mode lines, then (iff the library recorded descriptions) a header and one
+    // line per description, in the library's order, each starting with the quoted phrase and the constant's text
+    let lib = crate::tool::run_full(cli_db(), q, true);
+    if let Ok(lib) = lib {
+        if !lib.descs.is_empty() {
+            let (want_default, _, _) = match expected_stdout(cli_db(), q, false) {
+                Ok(x) => x,
+                Err(_) => return CaseReport::pass(q, nontrivial, all_classes),
+            };
+            let mut cmd = Command::new(&e.any);
+            cmd.env("XDG_DATA_HOME", &e.xdg).env("TERM", "dumb").env("NO_COLOR", "1").env_remove("RUST_LOG").env_remove("RUST_BACKTRACE");
+            cmd.arg("--describe").arg("--").arg(q);
+            watch_begin(q);
+            let outp = cmd.output();
+            watch_end();
+            if let Ok(outp) = outp {
+                let got = String::from_utf8_lossy(&outp.stdout).to_string();
+                let bad = |why: &str| CaseReport::fail(q, format!("describe:{}", why), json!({"query": q, "stdout": got, "expected_value_lines": want_default, "library_descriptions": lib.descs.iter().map(|d| format!("{:?} => {}", d.phrase, d.description)).collect::<Vec<_>>()}));
+                if !outp.status.success() {
+                    return bad("exit-status");
+                }
+                let rest = match got.strip_prefix(want_default.as_str()) {
+                    Some(r) => r,
+                    None => return bad("value-lines-differ-from-default-mode"),
+                };
+                // descriptions may contain line breaks: walk the block with the expected prefixes in order
+                let mut cur = match rest.strip_prefix("# Description of constants used (--describe):\n") {
+                    Some(r) => r,
+                    None => return bad("description-header-missing"),
+                };
+                for d in &lib.descs {
+                    let prefix = format!("{:?} => {}", d.phrase, d.description);
+                    match cur.find(prefix.as_str()) {
+                        Some(0) => {
+                            let after = &cur[prefix.len()..];
+                            // skip the optional source text up to the end of this line
+                            cur = match after.find('\n') {
+                                Some(i) => &after[i + 1..],
+                                None => "",
+                            };
+                        }
+                        _ => return bad("description-lines-are-not-the-library's-descriptions-in-order"),
+                    }
+                }
+                if !cur.is_empty() {
+                    return bad("extra-output-after-descriptions");
+                }
+                all_classes.push("describe-mode");
+            }
+        }
+    }
     CaseReport::pass(q, nontrivial, all_classes)
 }
 
